@@ -115,6 +115,8 @@ type Plan struct {
 	// peers stop reading) | "filters" | "blocks" (silent for those only).
 	MuteAtStop string
 	Announce   string
+	// API: the peer-state API family (apiplan.go) laid over the stop state.
+	API *APIPlan `json:",omitempty"`
 }
 
 func (p Plan) Point() string {
